@@ -6,6 +6,7 @@ package composite
 // request position, then fault-free syncs until quiescence.
 
 import (
+	"metacontroller/pkg/controller/common"
 	"time"
 
 	"k8s.io/apimachinery/pkg/apis/meta/v1/unstructured"
@@ -24,7 +25,9 @@ type verifC12World struct {
 
 // verifC12Setup: parent p; cached+live children a (owned, value "old") and b
 // (owned, no longer desired); the hook wants a="new" and a brand-new c.
-func verifC12Setup(hook *verifHook) *verifC12World {
+func verifC12Setup(hook *verifHook) *verifC12World { return verifC12SetupWith(hook, false) }
+
+func verifC12SetupWith(hook *verifHook, ssa bool) *verifC12World {
 	w := env.NewWorld()
 	parent := env.Thing("ns", "p", "puid")
 	w.Srv.Put("things", parent)
@@ -38,7 +41,7 @@ func verifC12Setup(hook *verifHook) *verifC12World {
 		hook = verifConstHook([]*unstructured.Unstructured{env.ConfigMap("ns", "a", "", "new"), env.ConfigMap("ns", "c", "", "new")}, map[string]interface{}{"phase": "ok"}, false)
 	}
 	pc := verifNewPC(w, verifPCConfig{
-		ParentRes: env.ThingRes, GenerateSelector: true,
+		ParentRes: env.ThingRes, GenerateSelector: true, SSA: ssa,
 		Children: []verifChildRule{{Res: env.ConfigMapRes, Strategy: verifStrategyOf("InPlace")}},
 		Sync:     hook,
 	})
@@ -371,4 +374,69 @@ func VerifC12_UnmergeableChild() {
 	st, _ := p.Object["status"].(map[string]interface{})
 	rt.Assert(st["phase"] == "ok", "unmergeable/status-not-written-although-children-were-reconciled")
 	rt.Cover("unmergeable/done")
+}
+
+// VerifC12_SSAFault: the scenario of VerifC12_SyncFaults with the
+// server-side-apply strategy (its own code path in updateChildren: JSON patch
+// that drops the old last-applied record, apply patch, the package-wide
+// "last update" memo and its lock). One write to a child fails with an error
+// that is not a benign race; the sync has to come back (no lock left held),
+// report the error, still attempt the other children and the status, and the
+// next syncs converge and go quiet.
+func VerifC12_SSAFault() {
+	common.VerifResetSSAMemo()
+	s := verifC12SetupWith(nil, true)
+	w := s.w
+	// child writes of the fault-free run: delete b; for a: JSON patch + apply; for c: apply
+	pos := rt.Choice("fault-at", 4)
+	kind := env.FaultInternal
+	if rt.Bool("timeout-instead-of-500") {
+		kind = env.FaultTimeout
+	}
+	w.Srv.ArmFault(pos, kind, "configmaps", false)
+
+	fp := verifFingerprint(verifListerItems(s.pc), nil)
+	s.pc.Queue.Items = append(s.pc.Queue.Items, "ns/p")
+	more := s.pc.processNextWorkItem()
+	rt.Assert(more, "ssa/worker-stops-after-a-sync")
+	fp.AssertUnchanged("C17/cache-object-mutated-by-failing-sync")
+
+	var hit *env.Req
+	touched := map[string]bool{}
+	nStatus := 0
+	for i := range w.Srv.Log {
+		r := &w.Srv.Log[i]
+		if r.IsWrite() && r.Resource == "configmaps" {
+			touched[r.Name] = true
+			if r.Err != nil && hit == nil {
+				hit = r
+			}
+		}
+		if r.Verb == "update" && r.Resource == "things" && r.Sub == "status" {
+			nStatus++
+		}
+	}
+	rt.Assert(hit != nil, "ssa/fault-position-not-reached")
+	if hit == nil {
+		return
+	}
+	rt.Cover("ssa/fault-hit")
+	rt.Assert(s.pc.Queue.Count("add-rate-limited") == 1, "ssa/failure-not-requeued-with-backoff")
+	rt.Assert(s.pc.Queue.Count("forget") == 0, "ssa/failure-forgotten")
+	rt.Assert(touched["a"] && touched["b"] && touched["c"], "ssa/one-failure-stopped-other-children")
+	rt.Assert(nStatus >= 1, "ssa/status-write-skipped-after-child-failure")
+
+	// once faults stop the cluster converges to the fault-free state
+	w.Srv.DisarmFault()
+	for i := 0; i < 3; i++ {
+		s.pc.Resnapshot()
+		s.pc.Queue.Items = append(s.pc.Queue.Items, "ns/p")
+		s.pc.processNextWorkItem()
+	}
+	verifC12Converged(w, "ssa/after-fault")
+	w.Srv.ResetLog()
+	s.pc.SnapshotFromStore()
+	s.pc.Queue.Items = append(s.pc.Queue.Items, "ns/p")
+	s.pc.processNextWorkItem()
+	rt.Assert(len(w.Srv.Writes()) == 0, "ssa/after-fault/not-quiescent")
 }
